@@ -184,11 +184,13 @@ impl Handler {
         let hex = |d: &[u8]| d.iter().map(|b| format!("{:02X}", b)).collect::<String>();
         let form = self.dict_form.as_str();
         let top_len = if form == "no-length" { String::new() } else { format!(" /Length {}", self.var.bits) };
-        let mut s = format!("<< /Filter /Standard /V {} /R {}{} /P {} /O <{}> /U <{}>", self.var.v, self.var.r, top_len, self.p, hex(&self.o), hex(&self.u));
+        // "uo-padded": /U and /O padded with zero bytes to 127 bytes (only the first 48 count)
+        let pad = |d: &[u8]| -> Vec<u8> { let mut v = d.to_vec(); if form == "uo-padded" { v.resize(127, 0); } v };
+        let mut s = format!("<< /Filter /Standard /V {} /R {}{} /P {} /O <{}> /U <{}>", self.var.v, self.var.r, top_len, self.p, hex(&pad(&self.o)), hex(&pad(&self.u)));
         if self.var.v >= 4 {
             let cfm = match self.var.method { "RC4" => "V2", m => m };
             let cf_len = match form { "cf-length-bits" => format!(" /Length {}", self.var.bits), "cf-no-length" | "no-length" => String::new(), _ => format!(" /Length {}", self.var.bits / 8) };
-            s += &format!(" /CF << /StdCF << /Type /CryptFilter /CFM /{} /AuthEvent /DocOpen{} >> >> /StmF /StdCF /StrF /StdCF", cfm, cf_len);
+            s += &format!(" /CF << /StdCF << /Type /CryptFilter /CFM /{} /AuthEvent /DocOpen{} >> >> /StmF /StdCF /StrF {}", cfm, cf_len, if form == "strf-identity" { "/Identity" } else { "/StdCF" });
         }
         if self.var.r >= 5 { s += &format!(" /OE <{}> /UE <{}> /Perms <{}>", hex(&self.oe), hex(&self.ue), hex(&[0u8; 16])); }
         if !self.encrypt_metadata { s += " /EncryptMetadata false"; }
